@@ -11,6 +11,7 @@ pub struct OutputData {
 }
 include!("extracted.rs");
 
+macro_rules! chk { ($c:expr, $o:expr, $a:expr, $s:expr, $m:expr) => { if !($c) { eprintln!("FAILING INPUT: select_from(amount={}, select_all={}, outputs(values)={:?}) violates: {}", $a, $s, $o.iter().map(|x| x.value).collect::<Vec<_>>(), $m); std::process::exit(1); } } }
 fn main() {
 	let vals: [u64; 7] = [0, 1, 2, 3, 5, 1 << 32, 1 << 60];
 	let amounts: [u64; 11] = [0, 1, 2, 3, 4, 6, 1 << 32, (1 << 32) + 1, 1 << 60, 1 << 61, 3 * (1u64 << 60) + 11];
@@ -32,21 +33,23 @@ fn main() {
 					cases += 1;
 					let r = select_from(amount, select_all, outs.clone());
 					match r {
-						None => assert!(total < amount as u128, "None although covered: {:?} {} {}", outs, amount, select_all),
+						None => {
+							chk!(total < amount as u128, outs, amount, select_all, "None although the outputs cover the amount");
+						}
 						Some(sel) => {
-							assert!(total >= amount as u128, "Some although not covered");
-							assert!(sel.len() <= outs.len() && sel[..] == outs[..sel.len()], "not a prefix: {:?} of {:?}", sel, outs);
+							chk!(total >= amount as u128, outs, amount, select_all, "Some although the outputs do not cover the amount");
+							chk!(sel.len() <= outs.len() && sel[..] == outs[..sel.len()], outs, amount, select_all, "result is not a prefix of outputs");
 							if select_all {
-								assert!(sel.len() == outs.len());
+								chk!(sel.len() == outs.len(), outs, amount, select_all, "select_all must return every output");
 							} else {
 								let s: u128 = sel.iter().map(|o| o.value as u128).sum();
 								// shortest prefix reaching the amount (empty when amount == 0)
 								if amount == 0 {
-									assert!(sel.is_empty());
+									chk!(sel.is_empty(), outs, amount, select_all, "amount 0 must select nothing");
 								} else {
-									assert!(s >= amount as u128, "selected sum below amount");
+									chk!(s >= amount as u128, outs, amount, select_all, "selected sum below amount");
 									let without_last: u128 = sel[..sel.len() - 1].iter().map(|o| o.value as u128).sum();
-									assert!(without_last < amount as u128, "not the shortest prefix");
+									chk!(without_last < amount as u128, outs, amount, select_all, "not the shortest prefix");
 								}
 								if !sel.is_empty() && sel.len() < outs.len() {
 									nontrivial += 1;
